@@ -164,14 +164,14 @@ func (s *Sched) sync() error {
 	if s.flushState == "" && s.pendingFlush > 0 {
 		a, err := s.G.Await(s.isMain(PtFlushStart), Wait)
 		if err != nil {
-			return fmt.Errorf("flush task did not start: %v", err)
+			return fmt.Errorf("flush task did not start (%s): %v", s.state(), err)
 		}
 		s.flushArr, s.flushState = a, "start"
 	}
 	if s.compState == "" && s.pendingComp > 0 {
 		a, err := s.G.Await(s.isMain(PtCompactPick), Wait)
 		if err != nil {
-			return fmt.Errorf("compaction task did not start: %v", err)
+			return fmt.Errorf("compaction task did not start (%s): %v", s.state(), err)
 		}
 		s.compArr, s.compState = a, "pick"
 	}
@@ -185,24 +185,50 @@ func (s *Sched) Pending() (flush, comp int) { return s.pendingFlush, s.pendingCo
 // compaction tasks are queued.
 func (s *Sched) Relieve(max int) error {
 	for guard := 0; s.pendingComp > max || s.pendingFlush > max; guard++ {
-		if guard > 200 {
-			return fmt.Errorf("dkvsched: background work does not drain (flush=%d comp=%d)", s.pendingFlush, s.pendingComp)
+		if guard > 400 {
+			return fmt.Errorf("dkvsched: background work does not drain (%s)", s.state())
 		}
-		lane := "flush"
-		if s.pendingComp > max {
-			lane = "compact"
-		}
-		did, err := s.Step(lane)
-		if err != nil {
+		if err := s.relieveComp(max); err != nil {
 			return err
 		}
-		if !did {
-			return fmt.Errorf("dkvsched: %d flush / %d compaction tasks queued but nothing parked on lane %s", s.pendingFlush, s.pendingComp, lane)
+		if s.pendingFlush > max {
+			if err := s.forced("flush"); err != nil {
+				return err
+			}
 		}
-		s.Forced++
-		s.Steps--
 	}
 	return nil
+}
+
+// relieveComp advances only the compaction lane (it never touches the flush lane,
+// so the flush lane may call it in the middle of one of its own steps).
+func (s *Sched) relieveComp(max int) error {
+	for guard := 0; s.pendingComp > max; guard++ {
+		if guard > 400 {
+			return fmt.Errorf("dkvsched: compactions do not drain (%s)", s.state())
+		}
+		if err := s.forced("compact"); err != nil {
+			return err
+		}
+	}
+	return nil
+}
+
+func (s *Sched) forced(lane string) error {
+	did, err := s.Step(lane)
+	if err != nil {
+		return err
+	}
+	if !did {
+		return fmt.Errorf("dkvsched: nothing parked on lane %s (%s)", lane, s.state())
+	}
+	s.Forced++
+	s.Steps--
+	return nil
+}
+
+func (s *Sched) state() string {
+	return fmt.Sprintf("flush=%q pending %d, compact=%q pending %d, memtables %d", s.flushState, s.pendingFlush, s.compState, s.pendingComp, s.memCount)
 }
 
 // Drain runs both lanes until nothing is queued.
@@ -227,10 +253,8 @@ func (s *Sched) Step(lane string) (did bool, err error) {
 			s.flushArr, s.flushState = a, "swap"
 		case "swap":
 			// the swap queues a compaction task; make room first
-			if s.pendingComp > 3 {
-				if err := s.Relieve(3); err != nil {
-					return false, err
-				}
+			if err := s.relieveComp(3); err != nil {
+				return false, err
 			}
 			s.flushArr.Release()
 			if _, err := s.G.Await(s.isMain(PtFlushSwapped), Wait); err != nil {
